@@ -32,12 +32,16 @@ def outcome(fn, env):
         return ("exc", type(e).__name__)
 
 
-def check(acc, tag, ast, envs, text=None):
+def check(acc, tag, ast, envs, text=None, before=None, between=None):
+    """before: a text compiled (accepted or not) right before every step; between: a text compiled after the evaluator and the
+    module function exist and before they are called (other experiments keep being compiled in a living process)"""
     text = rp.render(ast) if text is None else text
     cl = rp.classify(text)
     if cl[0] != "accept" or cl[1] != ast:
         acc.add("ambiguous_skipped")
         return
+    if before is not None:
+        impl.build(before)
     b = impl.build(text)
     if b[0] != "ok":
         acc.add("evaluator_build_failed")
@@ -50,6 +54,8 @@ def check(acc, tag, ast, envs, text=None):
     for expose in (False, True):
         acc.add("programs")
         case = {"kind": f"module:{tag}", "text": text, "expose": expose}
+        if before is not None:
+            impl.build(before)
         g = impl.gen(text, expose)
         if g[0] != "ok":
             acc.violation(dict(case, sub="generate", observed=list(g), why="generate_code failed on a source the evaluator accepts"))
@@ -67,6 +73,11 @@ def check(acc, tag, ast, envs, text=None):
             if not callable(fn):
                 acc.violation(dict(case, sub="name", observed=sorted(k for k in ns if not k.startswith("__"))[:8], why=f"no callable named {name!r}"))
                 continue
+            if before is not None:
+                case["before"] = before
+            if between is not None:
+                impl.build(between)
+                case["between"] = between
             for env in envs:
                 acc.add("evaluations")
                 a = outcome(fn, env)
@@ -223,6 +234,11 @@ def check_fresh_process(acc):
 def _work(units):
     acc = progcheck.Acc()
     for u in units:
+        if u[0] == "around":
+            _, before, between = u
+            for tag, a, e in list(ei.sharing())[:4] + list(ei.nested_tuples())[:2] + [x for x in ei.big() if x[0].startswith(("lazy", "nest:3", "groups:5"))]:
+                check(acc, "around:" + tag.split(":")[0], a, e[:6], before=before, between=between)
+            continue
         if u[0] == "fresh":
             check_fresh_process(acc)
             continue
@@ -304,6 +320,11 @@ def units(tier):
             out.append(("case", "weighted", a, envs))
     out += [("chain", j) for j in range(len(CHAINS))]
     out.append(("fresh",))
+    # other texts compiled before / in between: unterminated comments and errors, experiments named like the helpers of the skeleton
+    POISON = ['def warmup { return "a" weighted 1 } /* TODO', "/*", 'def e { return "a" weighted 1 @ }', 'def e { return "a" weighted }', 'def e { salt: "unterminated }']
+    NAMED = ['def map { splitters: uid return "M1" weighted 1, "M2" weighted 1 }', 'def str { return "S" weighted 1 }', 'def partial { return "P" weighted 1 }',
+             'def deterministic_choice { return "D" weighted 1 }', 'def exp { return "other exp" weighted 1 }', 'def e { splitters: zz return "other e" weighted 1 }']
+    out += [("around", p_, None) for p_ in POISON] + [("around", None, n_) for n_ in NAMED] + [("around", POISON[0], NAMED[0])]
     return out
 
 
